@@ -32,7 +32,7 @@ NTBase == [ a |-> <<97>>, b |-> <<98>>, c |-> <<99>>, d |-> <<100>>, e |-> <<101
         q |-> <<113>>, r |-> <<114>>, s |-> <<115>>, t |-> <<116>>, u |-> <<117>>,
         v |-> <<118>>, w |-> <<119>>, x |-> <<120>>, y |-> <<121>>, z |-> <<122>>,
         t0 |-> <<116,48>>, t1 |-> <<116,49>>, t2 |-> <<116,50>>, t3 |-> <<116,51>>,
-        t4 |-> <<116,52>>, t5 |-> <<116,53>>, nx |-> <<110,120>>, n1 |-> <<110,49>>, Items |-> <<73,116,101,109,115>>, n2 |-> <<110,50>>, n3 |-> <<110,51>>, n4 |-> <<110,52>>, n5 |-> <<110,53>>,
+        t4 |-> <<116,52>>, t5 |-> <<116,53>>, t6 |-> <<116,54>>, t7 |-> <<116,55>>, nx |-> <<110,120>>, n1 |-> <<110,49>>, Items |-> <<73,116,101,109,115>>, n2 |-> <<110,50>>, n3 |-> <<110,51>>, n4 |-> <<110,52>>, n5 |-> <<110,53>>,
         k1 |-> <<107,49>>, k2 |-> <<107,50>>, k3 |-> <<107,51>>,
         m1 |-> <<109,49>>, m2 |-> <<109,50>>, b1 |-> <<98,49>>, b2 |-> <<98,50>>,
         X |-> <<88>>, Y |-> <<89>>, Z |-> <<90>>, N |-> <<78>>,
